@@ -490,6 +490,13 @@ class S:
     def conjugate(s):
         return s
 
+    # numpy's object-dtype loops of the transcendental ufuncs call a method of the same name on each element
+    def cos(s): return _hook(np.cos)(s)
+    def sin(s): return _hook(np.sin)(s)
+    def arccos(s): return _hook(np.arccos)(s)
+    def log(s): return _hook(np.log)(s)
+    def exp(s): return _hook(np.exp)(s)
+
     def __getitem__(s, item):
         # numpy scalars support x[None] / x[()] / x[...]
         a = np.empty((), dtype=object)
@@ -1014,6 +1021,13 @@ def snorm(x, ord=None, axis=None, keepdims=False):
 
 _UFUNC_HOOKS = {}
 
+
+def _hook(uf):
+    h = _UFUNC_HOOKS.get(uf)
+    if h is None:
+        raise Inconclusive(f"transcendental ufunc {uf.__name__} on symbolic data without a model")
+    return h
+
 _FUNCS = {
     np.all: sall, np.any: sany,
     np.min: lambda a, axis=None, out=None, keepdims=False, **k: _reduce(smin, a, axis, keepdims),
@@ -1156,6 +1170,9 @@ class NPProxy:
         self.random = _NoRandom()
 
     def __getattr__(self, name):
+        if name == "pi" and Engine.cur is not None:
+            from . import trig
+            return trig.pi()
         return getattr(np, name)
 
     # --- creation
@@ -1183,6 +1200,10 @@ class NPProxy:
 
     @staticmethod
     def array(obj, *args, **k):
+        dt = k.get("dtype", args[0] if args else None)
+        if _has_sym(obj) and dt is not None and np.dtype(dt).kind == "f":
+            k = dict(k); k["dtype"] = object
+            args = args[1:] if args else args
         r = np.array(strip(obj) if isinstance(obj, SymArray) else obj, *args, **k)
         return wrap(r)
 
@@ -1190,6 +1211,10 @@ class NPProxy:
     def asarray(a, *args, **k):
         if isinstance(a, SymArray):
             return a
+        dt = k.get("dtype", args[0] if args else None)
+        if _has_sym(a) and dt is not None and np.dtype(dt).kind == "f":
+            # a float view of symbolic data is the symbolic data itself (reals)
+            return wrap(np.asarray(a, dtype=object))
         return wrap(np.asarray(a, *args, **k))
 
     @staticmethod
@@ -1244,6 +1269,24 @@ class NPProxy:
         if isinstance(x, S):
             return abs(x)
         return np.abs(x)
+
+    @staticmethod
+    def arccos(x):
+        if isinstance(x, S):
+            return _UFUNC_HOOKS[np.arccos](x)
+        return np.arccos(x)
+
+    @staticmethod
+    def cos(x):
+        if isinstance(x, S):
+            return _UFUNC_HOOKS[np.cos](x)
+        return np.cos(x)
+
+    @staticmethod
+    def sin(x):
+        if isinstance(x, S):
+            return _UFUNC_HOOKS[np.sin](x)
+        return np.sin(x)
 
     @staticmethod
     def minimum(a, b):
